@@ -16,7 +16,7 @@ from concurrent.futures import ThreadPoolExecutor
 
 ROOT = os.path.dirname(os.path.dirname(os.path.abspath(__file__)))
 # seeds whose change belongs to another property's clause
-ALSO = {'C16H': ['C13'], 'C07H': ['C17'], 'C16J': ['C13'], 'C13I': ['C16'], 'C16K': ['C13'], 'C16L': ['C17', 'C09'], 'C16P': ['C12'], 'C16R': ['C13'], 'C16T': ['C12'], 'C04S': ['C05'], 'C09V': ['C17']}
+ALSO = {'C16H': ['C13'], 'C07H': ['C17'], 'C16J': ['C13'], 'C13I': ['C16'], 'C16K': ['C13'], 'C16L': ['C17', 'C09'], 'C16P': ['C12'], 'C16R': ['C13'], 'C16T': ['C12'], 'C04S': ['C05'], 'C09V': ['C17'], 'C16Y': ['C08']}
 # seeds whose demonstration relies on behaviour the property text does not fix (kept for the record, not counted)
 NOT_ENTAILED = {
     'C20Q': "an environment variable that is set to the empty string: the property does not say whether that counts as set; mido itself treats '' differently for MIDO_DEFAULT_IOPORT and MIDO_DEFAULT_INPUT",
